@@ -304,8 +304,12 @@ impl Qcow2Header {
                 return Err(format!("qcow2 header length {header_length} is invalid").into());
             }
 
-            // the compression type field only exists in one longer header
-            if header_length > 104 && header.compression_type != 0 {
+            // the compression type field only exists in one longer header;
+            // in a 104 byte header these bytes belong to the first header
+            // extension, and the field has its default value
+            if header_length <= 104 {
+                header.compression_type = 0;
+            } else if header.compression_type != 0 {
                 let t = header.compression_type;
                 return Err(format!("qcow2 compression type {t} is not supported").into());
             }
